@@ -107,12 +107,16 @@ def _dict_key_cast(key: Any) -> Any:
 
 
 def _get_item(container: Any, key: Any) -> Any:
-    key = _key_cast(container, key)
+    cast_key = _key_cast(container, key)
 
     try:
-        return container[key]
+        return container[cast_key]
     except LookupError:
-        raise ParserError(f'Key error \'{key}\'')
+        # an integer position may have more digits than Python lets str() print: name the key as it was written
+        if isinstance(cast_key, int) and cast_key.bit_length() > 4000:
+            cast_key = key if not isinstance(key, int) else 'integer of %d bits' % key.bit_length()
+
+        raise ParserError(f'Key error \'{cast_key}\'')
 
 
 def _del(container: Any, key: Any) -> Any:
@@ -293,7 +297,7 @@ def _remove(container: Union[list, dict], v: Any):
 def _pop(arr: list, i: Optional[int] = None):
     try:
         return arr.pop(int(i)) if i is not None else arr.pop()
-    except IndexError as e:
+    except (IndexError, OverflowError) as e:
         raise ParserError(str(e))
 
 
